@@ -2,13 +2,19 @@
 
 Correspondence of lean/QipVerif/Model/Vqa.lean with qutip_qip.vqa.VQA (index bookkeeping compared
 exactly: block series, parameter slices, jacobian entries, prefix/suffix products), plus the direct
-numerical statement of the property (central finite differences of `evaluate_parameters`)."""
+numerical statement of the property (central finite differences of `evaluate_parameters`).
+
+The matrix semantics of the Lean theorems (Lemmas/VqaSem.lean: SBlock.unitary, SBlock.dUnitary, props,
+costOf, jacValue) is re-evaluated here with numpy from the raw block matrices and the model's indices, and
+compared (1e-9) with what the implementation computes: every propagator, every matrix returned by
+get_unitary_derivative, the cost, and every jacobian entry."""
 import itertools, time
 import numpy as np
 
 from vlib.core import PropertyCheck
 
 KINDS = "hunpf"
+SENTINEL = 12345.0
 NATIVE_1Q = ["SNOT", "X", "Y", "Z", "S", "T"]
 PAULI = {"I": np.eye(2), "X": np.array([[0, 1], [1, 0]]), "Y": np.array([[0, -1j], [1j, 0]]),
          "Z": np.array([[1, 0], [0, -1]])}
@@ -38,7 +44,7 @@ def build_vqa(w):
     nq, L = w["nq"], w["layers"]
     d = 2 ** nq
     dims = [[2] * nq, [2] * nq]
-    v = vqa.VQA(nq, L)
+    v = vqa.VQA(nq, L, cost_method={"o": "OBSERVABLE", "s": "STATE", "b": "BITSTRING"}[w.get("cm", "o")])
     natives = [(g, [q]) for q in range(nq) for g in NATIVE_1Q]
     for j, b in enumerate(w["blocks"]):
         rng = np.random.default_rng([int(w.get("seed", 0)), j, 19])
@@ -68,7 +74,10 @@ def build_vqa(w):
             raise ValueError("unknown block kind " + k)
         v.add_block(blk)
     rng = np.random.default_rng([int(w.get("seed", 0)), 1000, 19])
-    v.cost_observable = qutip.Qobj(_herm(rng, d), dims=dims)
+    if w.get("obs", 1):
+        v.cost_observable = qutip.Qobj(_herm(rng, d), dims=dims)
+    if w.get("func", 0):
+        v.cost_func = lambda x: SENTINEL
     return v
 
 
@@ -93,9 +102,13 @@ def classify_exc(e):
             return "angles"
         if "No angles were given" in msg:
             return "noangles"
+        if "please specify the attribute" in msg:
+            return "nocostfunc"
         return "other:ValueError:" + msg[:60]
     if isinstance(e, TypeError) and "unsupported operand" in msg and "function" in msg:
         return "funcderiv"
+    if isinstance(e, NotImplementedError) and "observable" in msg:
+        return "noobs"
     return "other:" + type(e).__name__ + ":" + msg[:60]
 
 
@@ -132,7 +145,9 @@ def instrumented_jac(v, angles, idx):
         def wrap(*a, _j=j, _o=blk.get_unitary_derivative, **kw):
             term = a[1] if len(a) > 1 else kw.get("term_index", 0)
             log.append(("deriv", _j, [float(x) for x in a[0]], term))
-            return _o(*a, **kw)
+            out = _o(*a, **kw)
+            log.append(("dmat", _j, out))
+            return out
         blk.get_unitary_derivative = wrap
     try:
         try:
@@ -176,6 +191,99 @@ def entries_from_log(log, angles):
             cur = {}
     return out, problems
 
+
+
+# ------------------------------------------------------------------------------------------------
+# independent numpy evaluation of the Lean semantics (Lemmas/VqaSem.lean)
+GATE_1Q = {"SNOT": np.array([[1, 1], [1, -1]]) / np.sqrt(2), "X": PAULI["X"], "Y": PAULI["Y"], "Z": PAULI["Z"],
+           "S": np.diag([1, 1j]), "T": np.diag([1, np.exp(1j * np.pi / 4)])}
+_GL = np.polynomial.legendre.leggauss(12)
+
+
+def expm_np(a):
+    from scipy.linalg import expm
+    return expm(np.asarray(a, dtype=complex))
+
+
+def exp_frechet_block(A, E):
+    """derivative of exp at A in direction E, from exp [[A,E],[0,A]] = [[e^A, L(A,E)],[0,e^A]]"""
+    d = A.shape[0]
+    z = np.zeros((d, d), dtype=complex)
+    return expm_np(np.block([[A, E], [z, A]]))[:d, d:]
+
+
+def exp_frechet_duhamel(A, E):
+    """the Lean definition expFrechet A E = int_0^1 e^{sA} E e^{(1-s)A} ds (Gauss-Legendre, eigen-free)"""
+    x, wts = _GL
+    panels = int(np.ceil(np.linalg.norm(A, 2) / 6.0)) + 1
+    out = np.zeros_like(A, dtype=complex)
+    for p in range(panels):
+        lo, hi = p / panels, (p + 1) / panels
+        for xi, wi in zip(x, wts):
+            sft = lo + 0.5 * (xi + 1.0) * (hi - lo)
+            out = out + 0.5 * (hi - lo) * wi * (expm_np(sft * A) @ E @ expm_np((1.0 - sft) * A))
+    return out
+
+
+class SemBlock:
+    """SBlock of Lemmas/VqaSem.lean built from the raw matrices of a real VQABlock"""
+
+    def __init__(self, blk, nq):
+        from qutip import Qobj
+        self.kind = None
+        op = blk.operator
+        if blk.is_native_gate:
+            self.kind = "native"
+            m = np.array([[1.0 + 0j]])
+            for q in range(nq):
+                m = np.kron(m, GATE_1Q[op] if [q] == list(blk.targets) else np.eye(2))
+            self.U = m
+        elif isinstance(op, Qobj) and blk.is_unitary:
+            self.kind, self.U = "fixed", op.full()
+        elif isinstance(op, Qobj):
+            self.kind, self.H = "ham", op.full()
+        elif hasattr(op, "p_terms"):
+            self.kind = "pham"
+            self.terms = [t.full() for t in op.p_terms]
+            d = 2 ** nq
+            self.c = op.c_term.full() if op.c_term is not None else np.zeros((d, d), dtype=complex)
+        else:
+            self.kind = "func"
+
+    def _A(self, args):
+        tot = self.c.astype(complex)
+        for a, h in zip(args, self.terms):
+            tot = tot + a * h
+        return -1j * tot
+
+    def unitary(self, args):
+        if self.kind in ("fixed", "native"):
+            return self.U
+        if self.kind == "ham":
+            return expm_np((-1j * args[0]) * self.H)
+        if self.kind == "pham":
+            return expm_np(self._A(args))
+        raise ValueError("no semantics for a function block")
+
+    def d_unitary(self, args, term, duhamel=False):
+        if self.kind == "ham":
+            return self.unitary(args) @ (-1j * self.H)
+        if self.kind == "pham":
+            f = exp_frechet_duhamel if duhamel else exp_frechet_block
+            return f(self._A(args), -1j * self.terms[term])
+        raise ValueError("no derivative")
+
+
+def _prod(ms, d):
+    u = np.eye(d, dtype=complex)
+    for m in ms:
+        u = m @ u
+    return u
+
+
+def close(a, b, tol=1e-9):
+    a, b = np.asarray(a), np.asarray(b)
+    return a.shape == b.shape and bool(np.all(np.abs(a - b) <= tol * (1.0 + np.abs(b))))
 
 class Word:
     """element of the free monoid; the Qobj identity that starts both lists acts as the empty word"""
@@ -224,40 +332,68 @@ class C19(PropertyCheck):
         "QipVerif.C19.cost_real",
         "QipVerif.C19.jac_shape_and_entries",
         "QipVerif.C19.jac_default_full",
+        "QipVerif.C19.ham_block_derivative",
+        "QipVerif.C19.exp_directional_derivative",
+        "QipVerif.C19.expFrechet_is_fderiv",
+        "QipVerif.C19.block_derivative_is_partial",
+        "QipVerif.C19.jac_is_gradient",
+        "QipVerif.C19.jac_is_gradient_default",
+        "QipVerif.C19.jac_ignores_cost_method",
+        "QipVerif.C19.jac_without_observable",
         "QipVerif.C19.jac_shape_and_entries_partial",
         "QipVerif.C19.C19_counterexample_orig",
         "QipVerif.C19.C19_orig_refuted",
     ]
-    level_text = ("Lean 4 theorems about the model of VQA's index bookkeeping, for every block list, layer count, parameter "
-                  "vector and index list: block k of the series is gate k of the constructed circuit and receives the slice "
-                  "angles[i:i+n]; U_prods_back[n-1-k]*X*U_prods[k] is the product with factor k replaced (any monoid); "
-                  "compute_jac (as repaired by fixes/C19-1.patch) returns exactly one entry per requested free parameter, in "
-                  "increasing order, each referring to the right block, slice, term and propagator; the value computed by "
-                  "cost_derivative is the derivative of Re<psi|U^dag O U|psi> along that parameter (product rule over complex "
-                  "matrices, HasDerivAt). For the loop as shipped the statement is refuted by a proved counter-example "
-                  "(two-term ParameterizedHamiltonian: 1 entry for 2 parameters) and proved under 'every block has <= 1 "
-                  "parameter'. Model tied to the code by an exact correspondence of series, slices, jacobian entries "
-                  "(block, slice, term, prefix and suffix index read from the implementation's own calls) and product words.")
-    level_note = ("partial: proof for the bookkeeping and the product rule; that VQABlock.get_unitary_derivative returns the "
-                  "derivative of VQABlock.get_unitary (d/dtheta exp(-i theta H), scipy.linalg.expm_frechet, Qobj.expm) is a "
-                  "hypothesis of jac_entry_is_partial_derivative (trusted numerics), supported only by the finite-difference "
-                  "oracle (1e-5). Model and theorems describe compute_jac with fixes/C19-1.patch applied.")
-    technique = "Lean 4 proof (list induction, monoid algebra, Mathlib HasDerivAt for the product rule) + model/implementation correspondence"
+    level_text = ("Lean 4 theorems, for every block list (fixed unitaries, native gates, Hamiltonian blocks exp(-i theta H), "
+                  "ParameterizedHamiltonian blocks exp(-i(sum_j p_j H_j + C)) with any number of arbitrary, non-commuting terms; any "
+                  "initial flags), every layer count, parameter vector, index list, observable and state: whenever compute_jac (as "
+                  "repaired by fix C19-1) returns, it returns one entry per requested free parameter in increasing order, and the "
+                  "number it computes for an entry, cost_derivative(U, U_prods_back[n-1-k] * get_unitary_derivative(angles[i:i+n], t) "
+                  "* U_prods[k]), IS the partial derivative (Mathlib HasDerivAt in that coordinate) of Re<psi|U(theta)^dag O "
+                  "U(theta)|psi>, U the ordered product of the propagators of construct_circuit(theta) (jac_is_gradient, "
+                  "jac_is_gradient_default). The matrix calculus is proved with Mathlib's matrix exponential: d/dtheta exp(-i theta H) = "
+                  "exp(-i theta H)(-iH) for every complex square H; for arbitrary non-commuting A, E the map t -> exp(A+tE) is "
+                  "differentiable at 0 with derivative expFrechet A E = int_0^1 e^{sA} E e^{(1-s)A} ds (Duhamel; proved here, "
+                  "Mathlib only has the commuting case), which is the Frechet derivative fderiv exp A applied to E, equal to e^A E "
+                  "when A, E commute; hence get_unitary_derivative of every block kind is the partial derivative of get_unitary "
+                  "(block_derivative_is_partial). Bookkeeping as before (series <-> circuit slices, prefix/suffix products over any "
+                  "monoid, product rule, shape), counter-example + partial theorem for the loop as shipped before the fix, and the "
+                  "cost configuration (compute_jac ignores cost_method/cost_func; NotImplementedError without observable). Model tied "
+                  "to the code by an exact correspondence of series, slices, jacobian entries (block, slice, term, prefix and suffix "
+                  "index read from the implementation's own calls), product words, exception classes, and by a numpy re-evaluation "
+                  "of the Lean semantics (every propagator, every derivative matrix against the block-triangular formula and the "
+                  "Duhamel integral, the cost, every jacobian entry; 1e-9).")
+    level_note = ("proved for the model of compute_jac with fix C19-1 applied (as /repo now is); the loop as shipped earlier is "
+                  "refuted by C19_counterexample_orig and covered by jac_shape_and_entries_partial. Trusted, not proved: floating "
+                  "point; Qobj.expm computes the matrix exponential; scipy.linalg.expm_frechet(A,E) computes the derivative of exp "
+                  "at A in direction E (its documented meaning; that this quantity exists, is unique and is the partial derivative "
+                  "of the block unitary IS proved); QubitCircuit.propagators / circ.run agree with the ordered product (compared "
+                  "numerically on every case). Python-function blocks are outside (compute_jac raises TypeError, modelled); native "
+                  "gates take no parameter in VQA (there are no parameterised library rotations in a VQA circuit). Cost modes STATE "
+                  "and BITSTRING are outside: compute_jac differentiates the observable expectation only.")
+    technique = ("Lean 4 proof (list induction, monoid algebra, Mathlib HasDerivAt / NormedSpace.exp: product rule, Duhamel formula "
+                 "via the fundamental theorem of calculus and continuity of parametric integrals) + exact model/implementation "
+                 "correspondence + numerical re-evaluation of the proved semantics")
     trusted_base = [
         "Lean 4.33 kernel; axioms propext, Classical.choice, Quot.sound",
-        "numerics: Qobj.expm, scipy.linalg.expm_frechet, d/dtheta exp(-i theta H) = exp(-i theta H)(-iH) (hypothesis hP of "
-        "jac_entry_is_partial_derivative)",
-        "QubitCircuit.propagators returns one propagator per gate in gate order; gate_sequence_product multiplies later "
-        "propagators from the left (Model/Vqa.lean:fullProd), validated by the correspondence (U passed to cost_derivative)",
+        "numerics: floating point; Qobj.expm = matrix exponential; scipy.linalg.expm_frechet(A, E, compute_expm=False) = derivative "
+        "of exp at A in direction E (= expFrechet A E of Lemmas/VqaExp.lean) — compared on every case with the block-triangular "
+        "formula exp[[A,E],[0,A]] and (sampled) with the Duhamel integral, 1e-9 / 1e-7",
+        "QubitCircuit.propagators returns one propagator per gate in gate order = user gate applied to arg_value; "
+        "gate_sequence_product multiplies later propagators from the left (Model/Vqa.lean:fullProd); circ.run(|0..0>) = product "
+        "applied to |0..0> — each compared numerically on every case (1e-9)",
         "py/props/c19.py (harness; instance-level wrappers around get_unitary_products / get_unitary_derivative / "
-        "cost_derivative record indices, exceptions canonicalised to {angles,noangles,funcderiv})",
+        "cost_derivative record indices and matrices, exceptions canonicalised to {angles,noangles,funcderiv,noobs,nocostfunc})",
     ]
-    assumptions = ["observable cost mode; Hermitian observable for the real-valued cost",
+    assumptions = ["observable cost mode (cost_method OBSERVABLE with cost_observable set); the theorem is about the real part of the "
+                   "cost, which is the cost for a Hermitian observable (cost_real)",
                    "function blocks (types.FunctionType) are outside the property's class: compute_jac raises TypeError for them (modelled)"]
     rule = ("case = (block structure: kinds h/u/n/p(k terms)/f with initial flags, layers 1-3, qubits 1-3, length of the angle "
             "vector, index list); all structures of <= 2 blocks (quick) / <= 3 blocks (thorough) over {h,u,n,p1,p2} x initial, "
             "every subset of indices when <= 3 free parameters (sampled beyond), then random longer structures and a malformed "
-            "stream (wrong vector length, negative/duplicate/out-of-range indices, 0-term Hamiltonians, function blocks); "
+            "stream (wrong vector length, negative/duplicate/out-of-range indices, 0-term Hamiltonians, function blocks), the cost "
+            "configurations (cost_method x observable set/None x cost_func set/None); every in-class case that returns is also "
+            "re-evaluated numerically (propagators, derivative matrices, cost, jacobian values); "
             "non-trivial = at least one free parameter and (>= 2 series entries or a multi-parameter block)")
 
     # ---------------------------------------------------------------------------------
@@ -273,6 +409,9 @@ class C19(PropertyCheck):
                              "idx=default" if idx is None else "idx=subset"]
         idxs = "default" if idx is None else ("none" if not idx else ",".join(map(str, idx)))
         line = f"jac layers={L} blocks={enc_blocks(blocks)} nangles={m} idx={idxs} orig=0"
+        if "cm" in w or "obs" in w:
+            line += f" obs={int(bool(w.get('obs', 1)))} cm={w.get('cm', 'o')}"
+            inp.update(cm=w.get("cm", "o"), obs=int(bool(w.get("obs", 1))))
         model = ctx.driver("drv_vqa").run([line])[0]
         status, jac, log = instrumented_jac(v, np.array(angles) if as_array else angles, idx)
         wit = dict(w, angles=angles, indices=idx)
@@ -291,6 +430,66 @@ class C19(PropertyCheck):
                 return
         if model.rstrip() != impl.rstrip():
             res.disagree(inp, model, impl, "jacobian entries (k:block:start:n:term) or verdict", wit)
+            return
+        if status == "ok" and self.in_class(w):
+            bad = self._semantic(ctx, w, v, angles, model, log, jac)
+            res.hist["semantic-evaluated"] = res.hist.get("semantic-evaluated", 0) + 1
+            res.hist["semantic-entries"] = res.hist.get("semantic-entries", 0) + len(jac)
+            if bad:
+                res.disagree(inp, bad[1], bad[2], "matrix semantics (Lemmas/VqaSem.lean): " + bad[0], wit)
+
+    def _semantic(self, ctx, w, v, angles, model, log, jac):
+        """numpy evaluation of SBlock.unitary / dUnitary / props / costOf / jacValue at the model's indices,
+        compared with the implementation's propagators, derivative matrices, cost and jacobian (1e-9).
+        -> None or (what, model value, implementation value)"""
+        nq, L = w["nq"], w["layers"]
+        d = 2 ** nq
+        sem = [SemBlock(b, nq) for b in v.blocks]
+        circ = ctx.driver("drv_vqa").run([f"circuit layers={L} blocks={enc_blocks(w['blocks'])} nangles={len(angles)}"])[0]
+        body = circ[3:].strip()
+        gates = []
+        for g in (body.split(";") if body else []):
+            blk, _nat, arg = g.split(":")
+            gates.append((int(blk), [] if arg == "-" else [int(x) for x in arg.strip("[]").split(".") if x]))
+        ps = [sem[b].unitary([angles[q] for q in pos]) for b, pos in gates]
+        impl_ps = [q.full() for q in v.construct_circuit(angles).propagators()]
+        if len(ps) != len(impl_ps):
+            return "number of propagators", str(len(ps)), str(len(impl_ps))
+        for k, (a, b) in enumerate(zip(ps, impl_ps)):
+            if not close(b, a):
+                return (f"propagator {k} is not get_unitary of block {gates[k][0]} at the slice {gates[k][1]}",
+                        np.round(a, 6).tolist(), np.round(b, 6).tolist())
+        U = _prod(ps, d)
+        psi = np.zeros(d, dtype=complex)
+        psi[0] = 1.0
+        O = v.cost_observable.full()
+        if w.get("cm", "o") == "o":
+            cost = float(np.real(np.vdot(U @ psi, O @ (U @ psi))))
+            ic = float(np.real(v.evaluate_parameters(angles)))
+            if not close(ic, cost):
+                return "evaluate_parameters is not <psi|U^dag O U|psi> with U the ordered product of the block unitaries", cost, ic
+        ents = [tuple(int(x) for x in e.split(":")) for e in model[3:].strip().split(";") if e]
+        dmats = [ev[2].full() for ev in log if ev[0] == "dmat"]
+        if len(dmats) != len(ents) or len(jac) != len(ents):
+            return "number of derivative matrices / jacobian entries", str(len(ents)), f"{len(dmats)}/{len(jac)}"
+        for i, (k, blk, start, nn, term) in enumerate(ents):
+            args = [angles[q] for q in range(start, start + nn)]
+            dB = sem[blk].d_unitary(args, term)
+            if not close(dmats[i], dB):
+                return (f"entry {i}: get_unitary_derivative(block {blk}, angles[{start}:{start + nn}], term {term}) is not the derivative "
+                        "of exp at -iH(p) in direction -iH_term (expFrechet, block-triangular formula) / U*(-iH)",
+                        np.round(dB, 6).tolist(), np.round(dmats[i], 6).tolist())
+            if sem[blk].kind == "pham" and (i + len(ents) + start) % 7 == 0:
+                dD = sem[blk].d_unitary(args, term, duhamel=True)
+                if not close(dmats[i], dD, 1e-7):
+                    return (f"entry {i}: get_unitary_derivative is not the Duhamel integral int_0^1 e^(sA) E e^((1-s)A) ds",
+                            np.round(dD, 6).tolist(), np.round(dmats[i], 6).tolist())
+            dU = _prod(ps[:k] + [dB] + ps[k + 1:], d)
+            val = float(np.real(np.vdot(dU @ psi, O @ (U @ psi)) + np.vdot(U @ psi, O @ (dU @ psi))))
+            if not close(float(jac[i]), val):
+                return (f"jacobian entry {i} (parameter {start + term}) is not cost_derivative(U, suffix*dBlock*prefix) = jacValue",
+                        val, float(jac[i]))
+        return None
 
     def _compare_static(self, ctx, res, w, v, m):
         """series, number of free parameters, constructed circuit"""
@@ -403,6 +602,54 @@ class C19(PropertyCheck):
             self._compare_static(ctx, res, w, v, m)
             self._compare(ctx, res, w, v, m, idx, tags=["malformed=" + mode])
         self._compare_words(ctx, res)
+        self._compare_costcfg(ctx, res)
+
+    def _compare_costcfg(self, ctx, res):
+        """cost_method x cost_observable set/None x cost_func set/None: compute_jac ignores cost_method and cost_func,
+        raises NotImplementedError without observable when an entry is requested; which quantity
+        evaluate_parameters returns"""
+        rng = ctx.rng
+        structs = [[{"kind": "h", "nterms": 0, "initial": False}],
+                   [{"kind": "u", "nterms": 0, "initial": True}, {"kind": "p", "nterms": 2, "initial": False}],
+                   [{"kind": "f", "nterms": 0, "initial": False}, {"kind": "h", "nterms": 0, "initial": False}],
+                   [{"kind": "h", "nterms": 0, "initial": True}, {"kind": "f", "nterms": 0, "initial": False}],
+                   [{"kind": "n", "nterms": 0, "initial": False}]]
+        n = 0
+        for blocks in structs:
+            for cm in "osb":
+                for obs in (0, 1):
+                    for func in (0, 1):
+                        n += 1
+                        w = {"nq": 1 + n % 2, "layers": 1 + n % 2, "blocks": blocks, "seed": 900 + n, "cm": cm, "obs": obs,
+                             "func": func}
+                        v = build_vqa(w)
+                        nfree = nfree_of(w)
+                        for idx in (None, [], [nfree - 1] if nfree else [0]):
+                            self._compare(ctx, res, w, v, nfree, idx, tags=["costcfg", "cm=" + cm, f"obs={obs}"])
+                        has_f = any(b["kind"] == "f" for b in blocks)
+                        angles = [0.3 + 0.2 * j for j in range(nfree)]
+                        model = ctx.driver("drv_vqa").run([f"evalkind cm={cm} obs={obs} func={func}"])[0]
+                        try:
+                            val = v.evaluate_parameters(angles)
+                            impl = "ok costfunc" if val == SENTINEL else "ok observable"
+                            if impl == "ok observable" and not has_f:
+                                sem = [SemBlock(b, w["nq"]) for b in v.blocks]
+                                pos, ps = 0, []
+                                for b, sb in zip(blocks * 1, sem):
+                                    k = nparams(b)
+                                    ps.append(sb.unitary(angles[pos:pos + k]))
+                                    pos += k
+                                if w["layers"] == 1:
+                                    u = _prod(ps, 2 ** w["nq"])
+                                    want = float(np.real(np.vdot(u[:, 0], v.cost_observable.full() @ u[:, 0])))
+                                    if not close(float(np.real(val)), want):
+                                        impl = f"ok observable-with-wrong-value {val} vs {want}"
+                        except Exception as e:
+                            impl = "err " + classify_exc(e)
+                        inp = {"what": "evaluate_parameters kind", "cm": cm, "obs": obs, "func": func, "blocks": enc_blocks(blocks)}
+                        res.case(inp, nontrivial=True, tags=["costcfg-eval"])
+                        if impl != model:
+                            res.disagree(inp, model, impl, "which quantity evaluate_parameters returns / its exception", dict(w))
 
     # ---------------------------------------------------------------------------------
     def _random_witness(self, rng, allow_func=False, allow_p0=False, maxblocks=5):
@@ -420,12 +667,14 @@ class C19(PropertyCheck):
     @staticmethod
     def in_class(w):
         """the property's class: Hamiltonian blocks, ParameterizedHamiltonian with >= 1 term, fixed unitaries, native gates"""
+        if w.get("cm", "o") != "o" or not w.get("obs", 1):
+            return False
         return all(b["kind"] in "hun" or (b["kind"] == "p" and (b["nterms"] >= 1 or b.get("paulis"))) for b in w["blocks"])
 
     def oracle_replay(self, ctx, w):
         """the property on the real code: shape and values of compute_jac against central differences"""
         if not self.in_class(w):
-            return False, "outside the property's class (function block or 0-term Hamiltonian)"
+            return False, "outside the property's class (function block, 0-term Hamiltonian, or not observable cost mode)"
         v = build_vqa(w)
         nfree = v.get_free_parameters_num()
         angles = w.get("angles")
